@@ -137,7 +137,7 @@ def run_hist(root, a):
             if se["kind"] == "filler":
                 with DatasetFiller(ds, relative_path_from_split=Path(se["sub"])) as f:
                     v = 10 ** 6
-                    for s, n in se["writes"]:
+                    for s, n, *_rej in se["writes"]:
                         for _ in range(n):
                             f.write_example(values=sp.val(v), split=T.SPLITS[s]); v += 1
                 snap = T.snapshot(root)
